@@ -1,1 +1,83 @@
-// harnesses
+// Proof harnesses inside `state::state_updater` (sees `nat_status`, `is_forward_loss`, `FlowState`).
+// Properties: C19 (NAT truth table), C10 (hop-table window queries).
+use super::*;
+use crate::state::FlowState;
+use crate::types::Checksum;
+use crate::NatStatus;
+
+/// `nat_status` for ALL 2^16 x 2^16 x Option<2^16> inputs: the first responding hop is Detected iff
+/// the quoted checksum differs from the checksum as sent; a later hop is Detected iff the quoted
+/// checksum differs from the previous responding hop's; the carried-forward checksum is always the
+/// one this hop quoted.
+#[kani::proof]
+fn c19_nat_status_truth_table() {
+    let expected: u16 = kani::any();
+    let actual: u16 = kani::any();
+    let prev: Option<u16> = if kani::any() { Some(kani::any()) } else { None };
+    let (status, carry) = nat_status(Checksum(expected), Checksum(actual), prev);
+    let want = match prev {
+        None => expected != actual,
+        Some(p) => p != actual,
+    };
+    assert!((status == NatStatus::Detected) == want);
+    assert!((status == NatStatus::NotDetected) == !want);
+    assert!(carry == actual, "the next hop is compared with what this hop quoted");
+    kani::cover!(prev.is_none() && want, "first hop rewritten");
+    kani::cover!(prev.is_some() && !want && expected != actual, "rewritten earlier, unchanged here");
+}
+
+/// A path without rewriting never shows NAT; a single rewriting device shows it exactly once: three
+/// consecutive responding hops threaded through the real function, device between hop 1 and 2.
+#[kani::proof]
+fn c19_nat_status_threading() {
+    let sent: u16 = kani::any();
+    let rewritten: u16 = kani::any();
+    let (s1, c1) = nat_status(Checksum(sent), Checksum(sent), None);
+    let (s2, c2) = nat_status(Checksum(sent), Checksum(rewritten), Some(c1));
+    let (s3, _c3) = nat_status(Checksum(sent), Checksum(rewritten), Some(c2));
+    assert!(s1 == NatStatus::NotDetected);
+    assert!((s2 == NatStatus::Detected) == (rewritten != sent), "flagged at the first hop that sees the rewritten datagram");
+    assert!(s3 == NatStatus::NotDetected, "and only there");
+}
+
+/// Hop-table queries never fail and return the gap-free ascending run, for every window the
+/// aggregator can produce (WIN, DESIGN C10) — including first-ttl > 1 and before any response.
+/// `RandomState::new` reads the OS random source (a syscall Kani cannot model); the hasher keys are
+/// irrelevant to the window queries, so they become arbitrary values.
+fn stub_random_state_new() -> std::hash::RandomState {
+    let keys: (u64, u64) = (kani::any(), kani::any());
+    unsafe { std::mem::transmute::<(u64, u64), std::hash::RandomState>(keys) }
+}
+
+#[kani::proof]
+#[kani::unwind(256)]
+#[kani::stub(std::hash::RandomState::new, stub_random_state_new)]
+fn c10_flow_state_window_queries() {
+    let mut fs = FlowState::new(kani::any());
+    let (lowest, highest, hfr): (u8, u8, u8) = kani::any();
+    kani::assume(lowest <= 254 && highest <= 254 && hfr <= highest);
+    kani::assume(lowest == 0 || highest == 0 || lowest <= highest);
+    fs.lowest_ttl = lowest;
+    fs.highest_ttl = highest;
+    fs.highest_ttl_for_round = hfr;
+    let base = fs.hops.as_ptr() as usize;
+    let hop_size = std::mem::size_of::<crate::state::Hop>();
+    assert!(fs.hops.len() == 254);
+    let h = fs.hops();
+    if lowest == 0 || highest == 0 {
+        assert!(h.is_empty(), "nothing probed / nothing answered: empty list");
+    } else {
+        assert!(h.len() == usize::from(highest - lowest) + 1, "gap-free run lowest..=highest");
+        assert!(h.as_ptr() as usize == base + (usize::from(lowest) - 1) * hop_size, "starts at the lowest ttl probed");
+    }
+    let t = fs.target_hop();
+    let want_idx = if hfr > 0 { usize::from(hfr) - 1 } else { 0 };
+    assert!(t as *const _ as usize == base + want_idx * hop_size, "target hop = hop at the latest round's path length");
+    let probe_idx: usize = kani::any();
+    kani::assume(probe_idx < 254);
+    let hop = &fs.hops[probe_idx];
+    let _ = (fs.is_target(hop), fs.is_in_round(hop), fs.round(), fs.round_count());
+    kani::cover!(lowest > 1 && highest == 254, "first-ttl > 1, full path");
+    kani::cover!(lowest > 0 && highest == 0, "probed but nothing answered yet");
+    std::mem::forget(fs);
+}
